@@ -9,13 +9,10 @@ import BumpProof.Arena.Step
 
 set_option linter.unusedSimpArgs false
 
-namespace Arena
+namespace Arena.Mem
 open Rs
 
 /-! ## Predicates -/
-
-/-- address `a` lies in the granted block of chunk `c` -/
-def Chunk.has (c : Chunk) (a : Nat) : Bool := decide (c.base ≤ a ∧ a < c.base + c.size)
 
 /-- the address ranges `[base, base+size)` of the chunks are pairwise disjoint -/
 def ChunksDisjoint (cs : List Chunk) : Prop :=
@@ -32,18 +29,18 @@ def BlockInChunks (s : State) (lo hi : Nat) : Prop := ∃ c ∈ s.chunks, c.base
 
 /-- what `readByte` depends on -/
 abbrev MemCell := Nat × Nat × Array UInt8
-def Chunk.cell (c : Chunk) : MemCell := (c.base, c.size, c.data)
-def memOf (s : State) : List MemCell := s.chunks.map Chunk.cell
+def _root_.Arena.Chunk.memCell (c : Chunk) : MemCell := (c.base, c.size, c.data)
+def memOf (s : State) : List MemCell := s.chunks.map Chunk.memCell
 
 /-- `s'` has the chunks of `s` with identical bytes, followed by zero or more new chunks -/
 def MemExt (s s' : State) : Prop := ∃ extra, memOf s' = memOf s ++ extra
 
 /-- everything of a chunk except its bytes -/
-def Chunk.geom (c : Chunk) : Nat × Nat × Nat × Nat × Nat := (c.base, c.size, c.pos, c.granted, c.reqSize)
+def _root_.Arena.Chunk.memGeom (c : Chunk) : Nat × Nat × Nat × Nat × Nat := (c.base, c.size, c.pos, c.granted, c.reqSize)
 
 /-- `s'` equals `s` except for the bytes stored in the chunks -/
 def OnlyDataChanged (s s' : State) : Prop :=
-  s' = { s with chunks := s'.chunks } ∧ s'.chunks.map Chunk.geom = s.chunks.map Chunk.geom
+  s' = { s with chunks := s'.chunks } ∧ s'.chunks.map Chunk.memGeom = s.chunks.map Chunk.memGeom
 
 /-! ## `readByte` depends on `memOf` only -/
 
@@ -57,7 +54,7 @@ def readMem (m : List MemCell) (a : Nat) : UInt8 :=
 theorem readByte_eq_readMem (s : State) (a : Nat) : readByte s a = readMem (memOf s) a := by
   unfold readByte readMem memOf
   rw [List.find?_map]
-  have : (cellHas a ∘ Chunk.cell) = fun c : Chunk => decide (c.base ≤ a ∧ a < c.base + c.size) := rfl
+  have : (cellHas a ∘ Chunk.memCell) = fun c : Chunk => decide (c.base ≤ a ∧ a < c.base + c.size) := rfl
   rw [this]
   cases s.chunks.find? (fun c : Chunk => decide (c.base ≤ a ∧ a < c.base + c.size)) <;> rfl
 
@@ -68,7 +65,7 @@ theorem inChunks_iff (s : State) (a : Nat) : InChunks s a ↔ ∃ m ∈ memOf s,
   unfold InChunks memOf
   constructor
   · rintro ⟨c, hc, h1, h2⟩
-    exact ⟨c.cell, List.mem_map_of_mem hc, by simp [cellHas, Chunk.cell, h1, h2]⟩
+    exact ⟨c.memCell, List.mem_map_of_mem hc, by simp [cellHas, Chunk.memCell, h1, h2]⟩
   · rintro ⟨m, hm, h⟩
     obtain ⟨c, hc, rfl⟩ := List.mem_map.mp hm
     exact ⟨c, hc, of_decide_eq_true h⟩
@@ -112,7 +109,7 @@ theorem MemExt.blockInChunks {s s' : State} (h : MemExt s s') {lo hi : Nat} (hb 
     BlockInChunks s' lo hi := by
   obtain ⟨e, h⟩ := h
   obtain ⟨c, hc, h1, h2⟩ := hb
-  have : c.cell ∈ memOf s' := by rw [h]; exact List.mem_append_left _ (List.mem_map_of_mem hc)
+  have : c.memCell ∈ memOf s' := by rw [h]; exact List.mem_append_left _ (List.mem_map_of_mem hc)
   obtain ⟨d, hd, hcd⟩ := List.mem_map.mp this
   have e1 : d.base = c.base := congrArg (·.1) hcd
   have e2 : d.size = c.size := congrArg (·.2.1) hcd
@@ -167,7 +164,7 @@ theorem find?_modify {α} (p : α → Bool) (f : α → α) (hp : ∀ x, p (f x)
       · simp only [↓reduceIte, Option.some.injEq]
         rw [if_neg (by omega)]
 
-theorem memOf_modify_geom (s : State) (i : Nat) (f : Chunk → Chunk) (hf : ∀ c, (f c).cell = c.cell) :
+theorem memOf_modify_geom (s : State) (i : Nat) (f : Chunk → Chunk) (hf : ∀ c, (f c).memCell = c.memCell) :
     memOf { s with chunks := s.chunks.modify i f } = memOf s := by
   unfold memOf
   apply List.ext_getElem?
@@ -194,4 +191,4 @@ theorem readByte_setPos (s : State) (i p a : Nat) : readByte (setPos s i p) a = 
 theorem readByte_setCurPos (s : State) (p a : Nat) : readByte (setCurPos s p) a = readByte s a :=
   readByte_congr (memOf_setCurPos s p) a
 
-end Arena
+end Arena.Mem
